@@ -137,6 +137,12 @@ pub fn variants(sc: &Scenario, r: &mut Rng) -> Vec<(String, Vec<StoreState>, Cmd
         fast.fast_repack = true;
         fast.repack_all = true;
         v.push(("prune-repack-all-fast".to_string(), forgot.clone(), Cmd::Prune { spec: fast }, None));
+        // early-delete-index is documented to act only together with instant-delete (the excluded combination); given
+        // alone it must change nothing about the order of removals
+        let mut early = repack.clone();
+        early.early_delete_index = true;
+        early.repack_all = true;
+        v.push(("prune-early-delete-index-without-instant".to_string(), forgot.clone(), Cmd::Prune { spec: early }, None));
         let mut instant = repack.clone();
         instant.instant_delete = true;
         v.push(("prune-instant-delete".to_string(), forgot.clone(), Cmd::Prune { spec: instant }, None));
@@ -337,7 +343,7 @@ fn one_case(ctx: &Ctx, case: u64, r: &mut Rng, rep: &mut Report, n_variants_hint
     }
 }
 
-pub const N_VARIANTS: u64 = 18;
+pub const N_VARIANTS: u64 = 19;
 
 pub fn run(ctx: &Ctx) -> (Report, Meta) {
     let n_scen = ctx.tier.pick(5u64, 150);
